@@ -102,15 +102,23 @@ type knownFile struct {
 }
 
 func loadKnown() []KnownFinding {
-	b, err := os.ReadFile(filepath.Join(Root, "known_findings.json"))
-	if err != nil {
-		return nil
+	var res []KnownFinding
+	files := []string{filepath.Join(Root, "known_findings.json")}
+	more, _ := filepath.Glob(filepath.Join(Root, "known", "*.json"))
+	files = append(files, more...)
+	for _, f := range files {
+		b, err := os.ReadFile(f)
+		if err != nil {
+			continue
+		}
+		var kf knownFile
+		if json.Unmarshal(b, &kf) != nil {
+			fmt.Printf("BROKEN: cannot parse %s\n", f)
+			os.Exit(2)
+		}
+		res = append(res, kf.Findings...)
 	}
-	var kf knownFile
-	if json.Unmarshal(b, &kf) != nil {
-		return nil
-	}
-	return kf.Findings
+	return res
 }
 
 // ---------------------------------------------------------------------------------------------
